@@ -274,6 +274,10 @@ def edit(args: Namespace) -> str:
         "private": args.private or None,
         "comment": args.comment,
     }
+    for key in ("url-list", "httpseeds", "announce"):
+        # an empty string given to a list option clears the field
+        if editargs[key] == [""]:
+            editargs[key] = ""
     return edit_torrent(metafile, editargs)
 
 
